@@ -50,19 +50,40 @@ def line_text(l):
     raise MachineryError("unknown line kind " + k)
 
 
-def render(p):
+def render(p, fn_prefix="", call_prefix=""):
     out = [corpus.HEADER.rstrip("\n")]
+    out += _defs(p, fn_prefix)
+    out += _main(p, call_prefix or fn_prefix)
+    return "\n".join(out) + "\n"
+
+
+def _defs(p, prefix):
+    out = []
     names = ["fa", "fb"]
     for i, f in enumerate(p["fns"]):
-        out.append("def %s(%s):" % (names[i], ", ".join(f["params"])))
+        out.append("def %s%s(%s):" % (prefix, names[i], ", ".join(f["params"])))
         for l in f["lines"]:
             out.append("    " * l["ind"] + line_text(l))
-    out.append("while True:")
-    out += ["    va = d0.Setting", "    vb = d1.Setting", "    vc = 0"]
+    return out
+
+
+def _main(p, call_prefix):
+    out = ["while True:", "    va = d0.Setting", "    vb = d1.Setting", "    vc = 0"]
     for l in p["lines"]:
-        out.append("    " * (l["ind"] + 1) + line_text(l))
+        l2 = dict(l, b=call_prefix + l["b"]) if l["kind"] == "call" else l
+        out.append("    " * (l["ind"] + 1) + line_text(l2))
     out += ["    d2.Setting = va", "    d3.Setting = vb", "    d4.Setting = vc", "    yield_()"]
-    return "\n".join(out) + "\n"
+    return out
+
+
+def render_split(p, module="ml"):
+    """the same program with its functions moved into a library module, and the single-file twin whose function names
+    carry the module prefix (C13)"""
+    H = corpus.HEADER.rstrip("\n")
+    lib = "\n".join([H] + _defs(p, "")) + "\n"
+    main = "\n".join([H, "from library import %s" % module] + _main(p, module + ".")) + "\n"
+    merged = "\n".join([H] + _defs(p, module + "_") + _main(p, module + "_")) + "\n"
+    return {"": main, module: lib}, merged
 
 
 def generate(name, n, seed, max_lines=6, max_depth=2, nfuncs=1, exhaustive=False, alphabet=ALPHABET):
